@@ -122,7 +122,17 @@ class KernelModel:
     def model(self, args, kwargs):
         impl = self.real._implementation
         rng = np.random.default_rng(0)
-        dry = impl(*[_placeholder(a, rng) for a in args], **{k: _placeholder(v, rng) for k, v in kwargs.items()})
+        ph_args = [_placeholder(a, rng) for a in args]
+        ph_kwargs = {k: _placeholder(v, rng) for k, v in kwargs.items()}
+        try:  # a placeholder for a symbolic `range=` argument must be (lo, hi)-ordered along its last axis for the dry run
+            b = inspect.signature(impl).bind(*ph_args, **ph_kwargs)
+            r = b.arguments.get("range")
+            if isinstance(r, np.ndarray) and r.dtype.kind == "f" and r.ndim >= 1:
+                b.arguments["range"] = np.sort(r, axis=-1)
+                ph_args, ph_kwargs = list(b.args), dict(b.kwargs)
+        except (TypeError, ValueError):
+            pass
+        dry = impl(*ph_args, **ph_kwargs)
         name = getattr(self.real, "__module__", "numpy") + "." + self.real.__name__
         try:
             sig = inspect.signature(impl).bind(*args, **kwargs)
